@@ -152,6 +152,9 @@ def rule_mask_uses(rep, tname):
                 g = mask_guard_of_loop(se)
                 if g["guard"] is not None and any(y is node for y in walk(se["iter"])):
                     ok = True
+                # `for .. { if MASK[chan] { .. } }`: the guard is the loop's only statement, the mask is read for this channel's bit only
+                if g["guard"] == "filter-mask" and isinstance(g.get("mask_expr"), dict) and any(y is node for y in walk(g["mask_expr"])):
+                    ok = True
         if ok:
             n_ok += 1
         else:
@@ -273,7 +276,7 @@ def run(rep):
     rep.guarded("R-C16-process", C16.rule_process)
     rep.guarded("R-C16-partial", C16.rule_partial)
     rep.floor("R-C11-guard", 40)
-    rep.floor("R-C11-index", 70)
+    rep.floor("R-C11-index", 64)     # 7x on the reviewed tree; aliases (`let buf = &mut self.buffers[chan]`) legitimately remove a few
     rep.floor("R-C11-count", 14)
     rep.floor("R-C11-scratch", 7 + 6)
     rep.floor("R-C16-process", 12)
